@@ -1134,6 +1134,7 @@ class Budget:
         self.json_mutants = ctx.n(85, 140)
         self.xml_mutants = ctx.n(35, 60)
         self.enum_cap = ctx.n(700, 4000)
+        self.xml_enum_per_instance = ctx.n(450, 2000)
 
 
 def model_sources(ctx: Ctx, budget: Budget) -> Iterator[Tuple[str, str]]:
@@ -1272,7 +1273,7 @@ def check_model(ctx: Ctx, m: Model, budget: Budget, with_model: bool, enumerated
                 elif enumerated:
                     texts += [(xml[:cut], "truncate") for cut in sorted({0, 1, len(xml) // 3, len(xml) // 2, len(xml) - 1})]
                     texts += [("", "empty"), ("<", "garbage"), ("not xml", "garbage"), ("<a><b></a></b>", "garbage"), (xml + "<x/>", "trailing")]
-                    texts += enumerated_xml_mutants(xml, budget.enum_cap // max(1, len(instances)))
+                    texts += enumerated_xml_mutants(xml, budget.xml_enum_per_instance)
                 for _ in range(0 if big else max(1, budget.xml_mutants // max(1, len(instances)))):
                     texts.append(MMP.mutate_xml(xml, rng))
                 for mtext, label in texts:
